@@ -254,7 +254,8 @@ Definition tr_r_block (le : bool) (sc : script) (t : tower) (b : iblock N) (h : 
 (* ------------------------------------------------------------------------------------------ *)
 (* Watcher *)
 
-(* store_appointment: UPDATE appointments when the row exists, INSERT INTO appointments otherwise *)
+(* store_appointment: UPDATE appointments when the row exists, INSERT INTO appointments otherwise (an INSERT
+   that fails on the foreign key changes nothing: Crash.exec; the caller then answers UnknownUser) *)
 Definition tr_store_appointment (t : tower) (a : app) : list micro :=
   match find_app (db_apps t) (app_uuid a) with
   | Some _ => [MStmt (SUpdApp a)]
@@ -267,6 +268,7 @@ Definition tr_store_triggered (sc : script) (t : tower) (a : app) (dispute : N) 
   match decrypt (a_blob a) dispute with
   | Some penalty =>
       tr_store_appointment t a ++
+      if negb (w_store_ok t a) then [] else
       match w_store_appointment t a with
       | Abort _ _ => []
       | Ok _ t1 =>
@@ -290,7 +292,7 @@ Definition tr_add_appointment (sc : script) (t : tower) (signer : option N)
   | None => [MAck]
   | Some u =>
       match gk_get t u with
-      | None => []
+      | None => [MAck]
       | Some ui =>
           if N.leb (u_expiry ui) (gk_height t) then [MAck]
           else
@@ -323,7 +325,7 @@ Fixpoint tr_breach_uuid_loop (sc : script) (dispute : N) (us : list (N * N)) (t 
   | [] => []
   | uuid :: r =>
       match find_app (db_apps t) uuid with
-      | None => []
+      | None => tr_breach_uuid_loop sc dispute r t invalid
       | Some a =>
           match decrypt (a_blob a) dispute with
           | Some penalty =>
